@@ -12,22 +12,24 @@ From TP Require Base.PyOpsFields Base.PyOpsVersioned.
 (* the cells through which the translated functions look at the classes of an environment *)
 Definition env_list : list pystr :=
   [isinstance_attr (s2p "StructMeta"); isinstance_attr (s2p "FieldMeta"); n_mro; s2p "mro()"; s2p "__signature__";
-   s2p "__dict__"; s2p "_fields"; s2p "additional_properties_default"].
+   s2p "__dict__"; s2p "_fields"].
 
 Record agree_env (h : heap) (gd : guards) (g : genv) (extra : pystr -> list (pystr * pyval)) : Prop := {
   ae_cells : forall o a, str_in a env_list = true -> h o a = genv_heap gd g extra o a;
+  ae_addl : h n_TypedPyDefaults (s2p "additional_properties_default") =
+            genv_heap gd g extra n_TypedPyDefaults (s2p "additional_properties_default");
   ae_members : forall x kx n, find_klass g x = Some kx -> In n (map fst (k_own kx)) ->
       pseudo_attr n = false -> str_in n special_class_attrs = false -> h x n = Some (ref (member_obj x n)) }.
 
 Lemma agree_env_view h gd g extra : agree_env h gd g extra -> env_view h gd g extra.
 Proof.
-  intros [Hc Hm]. pose proof (genv_env_view gd g extra) as G.
+  intros [Hc Ha Hm]. pose proof (genv_env_view gd g extra) as G.
   assert (Hinst : forall c K, str_in (isinstance_attr K) env_list = true ->
             obj_isinstance h (ref c) K = obj_isinstance (genv_heap gd g extra) (ref c) K).
   { intros c K HK. unfold obj_isinstance, ref. rewrite pystr_eqb_refl, (Hc c _ HK). reflexivity. }
   assert (Hget : forall b a, str_in a env_list = true ->
             dv_getattr h (ref b) a = dv_getattr (genv_heap gd g extra) (ref b) a).
-  { intros b a Ha. unfold ref. cbn [dv_getattr obj_getattr]. rewrite pystr_eqb_refl, (Hc b a Ha). reflexivity. }
+  { intros b a Ha'. unfold ref. cbn [dv_getattr obj_getattr]. rewrite pystr_eqb_refl, (Hc b a Ha'). reflexivity. }
   constructor.
   - intro c. rewrite Hinst by reflexivity. apply (ev_struct _ _ _ _ G).
   - intro c. rewrite Hinst by reflexivity. apply (ev_fieldmeta _ _ _ _ G).
@@ -36,25 +38,12 @@ Proof.
   - intros b kb Hk. rewrite Hget by reflexivity. apply (ev_signature _ _ _ _ G b kb Hk).
   - intros b kb Hk. rewrite Hget by reflexivity. apply (ev_class_dict _ _ _ _ G b kb Hk).
   - intros b kb Hk. rewrite Hget by reflexivity. apply (ev_mro _ _ _ _ G b kb Hk).
-  - intro Hd. rewrite Hget by reflexivity. apply (ev_addl_default _ _ _ _ G Hd).
+  - intro Hd. rewrite <- (ev_addl_default _ _ _ _ G Hd). unfold ref. cbn [dv_getattr obj_getattr]. rewrite pystr_eqb_refl.
+    change (s2p "TypedPyDefaults") with n_TypedPyDefaults. rewrite Ha. reflexivity.
   - intros x kx Hk. rewrite <- (ev_fields _ _ _ _ G x kx Hk). unfold ref. cbn [dv_getattr_def obj_getattr_def].
     rewrite pystr_eqb_refl, (Hc x (s2p "_fields")) by reflexivity. reflexivity.
   - intros x kx n Hk Hn Hp Hs. unfold dv_getattr_dyn. unfold ref at 1. cbn [dv_getattr obj_getattr].
     rewrite pystr_eqb_refl, (Hm x kx n Hk Hn Hp Hs). reflexivity.
-Qed.
-
-(* a store into a cell the environment does not own leaves the agreement alone *)
-Lemma agree_env_set h gd g extra o a v :
-  str_in a env_list = false -> (forall x kx, find_klass g x = Some kx -> ~ (x = o /\ In a (map fst (k_own kx)))) ->
-  agree_env h gd g extra -> agree_env (heap_set h o a v) gd g extra.
-Proof.
-  intros Ha Hown [Hc Hm]. constructor.
-  - intros o' a' Ha'. unfold heap_set. destruct (pystr_eqb a' a) eqn:E.
-    + apply pystr_eqb_spec in E; subst. congruence.
-    + rewrite andb_false_r. apply Hc. exact Ha'.
-  - intros x kx n Hk Hn Hp Hs. unfold heap_set. destruct (pystr_eqb x o && pystr_eqb n a) eqn:E.
-    + apply andb_true_iff in E as [E1 E2]. apply pystr_eqb_spec in E1, E2. subst. exfalso. apply (Hown o kx Hk). split; [reflexivity|exact Hn].
-    + apply (Hm x kx n Hk Hn Hp Hs).
 Qed.
 
 (* ------------------------------------------------------------------ the model, in the order of the source *)
@@ -367,7 +356,7 @@ Section NewIsDefine.
   (* the attributes [mheap] speaks about *)
   Definition spec_attrs : list pystr :=
     env_list ++ [ia "Field"; ia "Constant"; ia "type"; s2p "_val"; n__default; n_dict_content; n_blocked;
-                 s2p "block_unknown_consts"].
+                 s2p "block_unknown_consts"; s2p "additional_properties_default"].
 
   (* the static side conditions (see [new_domain] below for the boolean ones) *)
   Hypothesis Hg_names : forallb (fun k => negb (pseudo_attr (k_name k))) g = true.
@@ -382,8 +371,9 @@ Section NewIsDefine.
     assert (Hs' : forall o a, In a spec_attrs -> h' o a = h o a).
     { intros o a Ha. apply Hs. apply str_in_In. exact Ha. }
     destruct M as [Menv M1 M2 M3 M4 M5 M6 M7 M8 M9 M11]. constructor.
-    - destruct Menv as [Hc Hm]. constructor.
+    - destruct Menv as [Hc Hadl Hm]. constructor.
       + intros o a Ha. rewrite Hs'; [apply Hc; exact Ha|]. apply in_or_app. left. apply str_in_In. exact Ha.
+      + rewrite Hs' by (vm_compute; tauto). exact Hadl.
       + intros x kx n Hk Hn Hp Hsp. rewrite (Hcls x kx n Hk Hn). apply (Hm x kx n Hk Hn Hp Hsp).
     - intros n m H. rewrite Hs' by (vm_compute; tauto). apply (M1 n m H).
     - intros n m H. rewrite Hs' by (vm_compute; tauto). apply (M2 n m H).
@@ -745,8 +735,9 @@ Section NewIsDefine.
       { intros o a Ha. rewrite Heq. unfold VM. destruct (pystr_eqb a n__default) eqn:E; [apply pystr_eqb_spec in E; contradiction|reflexivity]. }
       split; [|split; [exact Hother|reflexivity]].
       destruct M as [Menv M1 M2 M3 M4 M5 M6 M7 M8 M9 M11]. constructor.
-      + destruct Menv as [Hc Hm]. constructor.
+      + destruct Menv as [Hc Hadl Hm]. constructor.
         * intros o a Ha. rewrite Hother; [apply Hc; exact Ha|]. intro; subst a. discriminate.
+        * rewrite Hother by discriminate. exact Hadl.
         * intros x kx n Hk Hn Hp Hsp. rewrite Heq. unfold VM. destruct (pystr_eqb n n__default); [|apply (Hm x kx n Hk Hn Hp Hsp)].
           destruct (strip_prefix (mobj []) x) as [n'|] eqn:Es; [|apply (Hm x kx n Hk Hn Hp Hsp)].
           apply strip_prefix_inv in Es. rewrite <- mobj_app in Es. subst x. pose proof (Hcls _ _ Hk) as Hps. discriminate.
@@ -764,5 +755,135 @@ Section NewIsDefine.
       + intros x kx n m Hk Hin. destruct (M11 x kx n m Hk Hin) as [A B]. split; [rewrite Hother by discriminate; exact A|].
         intros v Hv. rewrite Hother by discriminate. apply (B v Hv).
     - rewrite G. reflexivity.
+  Qed.
+
+  (* ---------------------------------------------------------------- the class object *)
+
+  (* what is known of the new class while StructMeta.__new__ completes it *)
+  Definition kc (mro : list pystr) : klass :=
+    {| k_name := c; k_is_struct := true; k_bases := s_bases s; k_mro := mro; k_own := pre; k_all := [];
+       k_required := []; k_sig_req := []; k_sig_opt := []; k_sig_kwargs := false;
+       k_additional := s_additional s; k_ignore_none := s_ignore_none s; k_constants := [] |}.
+  Definition extra' : pystr -> list (pystr * pyval) := fun o => if pystr_eqb o c then [] else extra o.
+
+  Variable fields_at_creation : option pyval.   (* what getattr(clsobj, "_fields") finds before __new__ sets it *)
+
+  (* the heap after type.__new__(cls, name, bases, dict): a new class object; getattr on it finds its MRO, the
+     entries of its dict, and the members of its bases *)
+  Definition created (h : heap) (mro : list pystr) : heap :=
+    fun o a =>
+      if pystr_eqb o c then
+        if pystr_eqb a (s2p "_fields") then fields_at_creation
+        else if pystr_eqb a (s2p "__annotations__") then match ann with [] => None | _ => Some (ref annobj) end
+        else match class_attr (kc mro) [] a with
+             | Some v => Some v
+             | None => if negb (pseudo_attr a) then alist_get (v_fields_of_mro g (tl_str mro)) a else None
+             end
+      else h o a.
+
+  (* super().__new__(cls, name, bases, dict(cls_dict)) is type.__new__: it computes the MRO (TypeError when the
+     bases are inconsistent) and creates the class object *)
+  Hypothesis HX_new : forall hh d,
+    X (s2p "super().__new__") hh [p_cls; PStr c; PTuple (v_refs (s_bases s)); d] =
+    match mro_of g c (s_bases s) with
+    | Ok mro => Ok (created hh mro, ref c, [p_cls; PStr c; PTuple (v_refs (s_bases s)); d])
+    | Raise x => Raise x
+    end.
+
+  Hypothesis Hc_plain : pseudo_attr c = false.
+  Hypothesis Hc_fresh : find_klass g c = None.
+  Hypothesis Hc_structure : c <> n_Structure.
+  Hypothesis Hc_tpd : c <> n_TypedPyDefaults.
+  Hypothesis Hnames_reserved : forallb (fun n => negb (str_in n reserved_keys)) names = true.
+
+  Lemma del1_get' (l : list (pystr * pyval)) k k' : k' <> k -> alist_get (del1 l k) k' = alist_get l k'.
+  Proof.
+    intro H. induction l as [|[x v] t IH]; [reflexivity|]. cbn [del1 alist_get]. destruct (pystr_eqb x k) eqn:E.
+    - apply pystr_eqb_spec in E. subst x. destruct (pystr_eqb k k') eqn:E2; [apply pystr_eqb_spec in E2; congruence|reflexivity].
+    - cbn [alist_get]. destruct (pystr_eqb x k'); [reflexivity|exact IH].
+  Qed.
+
+  (* cls_dict.pop("_defaults", None) *)
+  Definition ents2 (req : list pystr) : list (pystr * pyval) :=
+    del1 (alist_set ents (s2p "_required") (v_names req)) (s2p "_defaults").
+
+  Lemma new_pop h req :
+    StructMeta_new__call_pop so X h (PDict (skeys (alist_set ents (s2p "_required") (v_names req)))) =
+    Ok (PDict (skeys (ents2 req))).
+  Proof.
+    unfold StructMeta_new__call_pop, dv_dict_pop. cbn [py_hashable']. rewrite dict_get_skeys, dict_del_skeys.
+    rewrite alist_get_set_other by discriminate. rewrite (dv_defaults Hdv). reflexivity.
+  Qed.
+
+  Lemma new_clsobj h req :
+    StructMeta_new__set_clsobj so X h p_cls (PStr c) (PTuple (v_refs (s_bases s))) (PDict (skeys (ents2 req))) =
+    match mro_of g c (s_bases s) with
+    | Ok mro => Ok (created h mro, ref c)
+    | Raise x => Raise x
+    end.
+  Proof.
+    unfold StructMeta_new__set_clsobj. cbn [dv_dict_of bind]. rewrite HX_new.
+    destruct (mro_of g c (s_bases s)) as [mro|x]; cbn [bind]; [|reflexivity]. rewrite !unchanged_refl. reflexivity.
+  Qed.
+
+  (* _check_for_final_violations needs to know the classes of the MRO's tail only *)
+  Lemma foldM_check_in (f : unit -> pyval -> res unit) (bad : pystr -> bool) x l :
+    (forall c0, In c0 l -> f tt (ref c0) = if bad c0 then Raise x else Ok tt) ->
+    dv_foldM f (v_refs l) tt = if existsb bad l then Raise x else Ok tt.
+  Proof.
+    intro H. unfold dv_foldM, v_refs. induction l as [|c0 t IH]; [reflexivity|].
+    cbn [map py_foldM existsb]. rewrite (H c0 (or_introl eq_refl)). destruct (bad c0); cbn [bind orb]; [reflexivity|].
+    apply IH. intros c1 Hc1. apply H. right. exact Hc1.
+  Qed.
+
+  Lemma check_final_core hp name mro_tail :
+    (forall x, In x mro_tail -> obj_isinstance hp (ref x) (s2p "StructMeta") =
+                                Ok (match find_klass g x with Some k => k_is_struct k | None => false end)) ->
+    (forall x, In x mro_tail -> obj_isinstance hp (ref x) (s2p "FieldMeta") = Ok false) ->
+    (forall x k r, In x mro_tail -> find_klass g x = Some k -> obj_issubclass hp (ref x) (ref r) = Ok (str_in r (k_mro k))) ->
+    DefineSrc.check_for_final_violations so X hp (PList (v_refs (name :: mro_tail))) =
+    if final_violation g mro_tail then Raise TypeError else Ok PNone.
+  Proof.
+    intros H1 H2 H3. unfold DefineSrc.check_for_final_violations. cbv zeta.
+    unfold py_unpack. cbn [v_refs map py_iter_items bind length Nat.leb firstn skipn app].
+    rewrite deref_list. cbn [dv_iter bind]. fold (v_refs mro_tail).
+    rewrite (foldM_check_in _ (fun c0 => strict_sub g c0 n_Final || strict_sub g c0 n_Immutable) TypeError).
+    - unfold final_violation. destruct (existsb _ mro_tail); reflexivity.
+    - intros c0 Hc0. cbn [bind]. rewrite globals_Final, globals_Immutable, globals_FieldMeta.
+      rewrite (H1 c0 Hc0), (H2 c0 Hc0). unfold strict_sub.
+      cbn [py_and bind]. destruct (find_klass g c0) as [k|] eqn:Hk.
+      2:{ rewrite !andb_false_r. reflexivity. }
+      destruct (k_is_struct k); cbn [andb].
+      2:{ rewrite !andb_false_r. reflexivity. }
+      rewrite !(H3 c0 k _ Hc0 Hk), !ne_refs. cbn [bind py_and].
+      change (s2p "FinalStructure") with n_Final. change (s2p "ImmutableStructure") with n_Immutable.
+      destruct (str_in n_Final (k_mro k)); cbn [bind deref py_truthy andb];
+        destruct (pystr_eqb c0 n_Final); cbn [negb andb orb bind deref py_truthy];
+        destruct (str_in n_Immutable (k_mro k)); cbn [bind deref py_truthy andb];
+        destruct (pystr_eqb c0 n_Immutable); reflexivity.
+  Qed.
+
+  Lemma created_other h mro o a : o <> c -> created h mro o a = h o a.
+  Proof. intro H. unfold created. destruct (pystr_eqb o c) eqn:E; [apply pystr_eqb_spec in E; contradiction|reflexivity]. Qed.
+
+  Lemma new_check_final ex an h ms mro_tail :
+    mheap g ex an h ms -> ~ In c mro_tail ->
+    StructMeta_new__call__check_for_final_violations so X (created h (c :: mro_tail)) (ref c) =
+    if final_violation g mro_tail then Raise TypeError else Ok tt.
+  Proof.
+    intros M Hnc. unfold StructMeta_new__call__check_for_final_violations.
+    rewrite getattr_ref. unfold created at 1. rewrite pystr_eqb_refl.
+    replace (pystr_eqb (s2p "mro()") (s2p "_fields")) with false by reflexivity.
+    replace (pystr_eqb (s2p "mro()") (s2p "__annotations__")) with false by reflexivity.
+    replace (class_attr (kc (c :: mro_tail)) [] (s2p "mro()")) with (Some (PList (v_refs (c :: mro_tail)))) by reflexivity.
+    cbn [bind].
+    pose proof (agree_env_view _ _ _ _ (mh_env g ex an h ms M)) as Hev.
+    assert (Hx : forall x, In x mro_tail -> x <> c) by (intros x Hx E; subst; contradiction).
+    rewrite (check_final_core (created h (c :: mro_tail)) c mro_tail).
+    - destruct (final_violation g mro_tail); reflexivity.
+    - intros x Hin. rewrite isinstance_ref, created_other by (apply Hx; exact Hin). rewrite <- isinstance_ref. apply (ev_struct _ _ _ _ Hev).
+    - intros x Hin. rewrite isinstance_ref, created_other by (apply Hx; exact Hin). rewrite <- isinstance_ref. apply (ev_fieldmeta _ _ _ _ Hev).
+    - intros x k r Hin Hk. rewrite <- (ev_subclass _ _ _ _ Hev x k r Hk). unfold obj_issubclass. rewrite !is_ref_ref.
+      rewrite created_other by (apply Hx; exact Hin). reflexivity.
   Qed.
 End NewIsDefine.
